@@ -1216,6 +1216,14 @@ class Intrinsic_Type_Spec(WORDClsBase):  # R403
             (pattern.abs_double_precision_name, None),
             ("BYTE", None),
         ]:
+            if (
+                cls is Kind_Selector
+                and string[: len(w)].upper() == w
+                and len(string[len(w) :].strip()) == 1
+            ):
+                # Kind_Selector requires at least two characters ('*n'
+                # being the shortest valid form) so this is not a match.
+                return None
             try:
                 obj = WORDClsBase.match(w, cls, string)
             except NoMatchError:
@@ -2006,6 +2014,9 @@ class Type_Param_Def_Stmt(StmtBase):  # R435
         if not l1 or not l2:
             return
         if kind_selector:
+            if len(kind_selector) < 2:
+                # Kind_Selector requires at least two characters.
+                return
             kind_selector = Kind_Selector(kind_selector)
         return kind_selector, Type_Param_Attr_Spec(l1), Type_Param_Decl_List(l2)
 
